@@ -142,6 +142,26 @@ HISTORY = {
     "C18-9": ("missed (round 5)", "C18 last-message-pointer `searches-every-page`: the page-length stop test comes after the search of that page"),
     "C19-9": ("caught (round 5)", ""),
     "C20-9": ("caught (round 5)", ""),
+    "C01-10": ("missed (round 6; the iterator form of the window fell outside the arithmetic rule, which then passed vacuously)", "C02 lookback-window-arithmetic: offset-walk form `(a..b).map_while(|k| cur.checked_sub(k))`, constant bounds, and a floor outside the loop (an unrecognised construction no longer passes silently)"),
+    "C02-10": ("caught by C04 / C05 (round 6)", ""),
+    "C03-10": ("caught by C01 (round 6)", "C07 now shares the rollback-arm clause as well"),
+    "C04-10": ("caught (round 6)", ""),
+    "C05-10": ("caught (round 6)", ""),
+    "C06-10": ("caught by C15 only (round 6)", "C06 no-panic: `copy_from_slice` / `clone_from_slice` need a dominating *equality* test of the length (an upper bound is not enough)"),
+    "C07-10": ("caught by C01 (round 6)", "C07 shares C01's rollback-arm clause (target epoch = the epoch the message carries)"),
+    "C08-10": ("caught by C09, after a crash of C13 on a call through a function pointer was repaired (round 6)", "nameless indirect calls no longer crash name-based predicates; the C09 key-representation report is imprecise for table-driven dispatch (all entries are reported)"),
+    "C09-10": ("caught (round 6)", ""),
+    "C10-10": ("caught (round 6)", ""),
+    "C11-10": ("caught by C09 / C12 (round 6)", ""),
+    "C12-10": ("caught (round 6)", ""),
+    "C13-10": ("missed — two checks fired for a spurious reason: an error text starting with \"delete\" was taken for SQL (round 6)", "SQL statements are recognised by keyword *and* what SQL requires after it; C13 keyring `get_db_key/absent-only-on-NoEntry`"),
+    "C14-10": ("missed — C06 / C08 fired for a spurious reason (`hex::decode_to_slice` unknown) (round 6)", "C14: the content of an event's `h` tag is an identifier source; C06 / C08 accept `decode_to_slice`"),
+    "C15-10": ("caught (round 6)", ""),
+    "C16-10": ("caught by C10 (round 6)", ""),
+    "C17-10": ("caught (round 6)", ""),
+    "C18-10": ("caught (round 6)", ""),
+    "C19-10": ("caught (round 6)", ""),
+    "C20-10": ("caught by C19 only, for a neighbouring reason (round 6)", "C20 rollback-discards-suffix `memory/rollback_group_to_snapshot/consumes-the-snapshot`"),
 }
 rows = ["| id | change (needs) | first | now caught by | strengthened |", "|----|----------------|-------|---------------|--------------|"]
 sd = os.path.join(VERIF, "seeded")
